@@ -86,7 +86,7 @@ def gen_case(rng: random.Random, tier):
     }
     if suffix is not None:
         model['suffix'] = {'v': suffix['value'], 'n': suffix['size'], 'little': little_op}
-    lines = []
+    lines = [p['pre'] for p in parts if p.get('pre')]
     if base:
         lines.append(f'.org {base}')
     if pred:
